@@ -124,9 +124,13 @@ CHECKS = {
               "function is run through every bookkeeping branch (also under Python's scoping rule taken literally: C15_gendump_well_scoped_py). "
               "The same for the default-engine load generator load_func_for_dataclass (DW/Model/GenLoad.lean: recursive statement forms with "
               "declared names, control-flow-aware scoping checker): theorem C15_genload_well_scoped for every class, tie: body, ordered "
-              "closure keys and globals byte for byte, declared names vs ast per source line, run on documents driving every branch. For "
+              "closure keys and globals byte for byte, declared names vs ast per source line, run on documents driving every branch; and for "
+              "the EnvWizard constructor generator _create_methods (DW/Model/GenEnv.lean): theorems C15_geninit_well_scoped / _py / "
+              "C15_geninit_defaults_bound for every class and every field name (the template's own names included), "
+              "C15_geninit_name_is_literal (variable names enter the text as literals only), tie: parameter list, body, dict, closure keys "
+              "and globals byte for byte over hostile names / prefixes, constructor run through its branches. For "
               "the v1 load generator the statement for every class is carried by the oracle (sampled), not by a theorem"),
-        technique='Lean 4 proof over quoting / naming models and over text-level models of the dump-function and default load-function generators (scoping theorems for every class, byte-for-byte correspondence with the generated source) + tables regenerated from generated code + renaming-equivariance oracle', ref='4 C15'),
+        technique='Lean 4 proof over quoting / naming models and over text-level models of the dump-function, default load-function and EnvWizard constructor generators (scoping theorems for every class, byte-for-byte correspondence with the generated source) + tables regenerated from generated code + renaming-equivariance oracle', ref='4 C15'),
     'C16': dict(
         text=("Lean theorems over a model of the property_wizard metaclass, dataclass field collection and the setter wrapper: field "
               "order, constructor parameters, the declared default is the one routed through the setter exactly once when the argument "
